@@ -2,15 +2,23 @@ package standard
 
 // Conformance driver for property C05 (spec/Proposer.tla).  Injected with -overlay by /verif/check.
 //
-// Each scenario (the history of one service instance: one or more duties; emitted by TLC from
-// spec/Scen_Proposer.tla) builds the real proposer service ONCE with scripted fakes at every
-// interface, then hands it the duties one after the other (Prepare, Propose) and records one event
-// per interface call the real code makes - with the arguments it really passed, decoded with the
-// library's own accessors - under the current duty's lock at the time of the call.  Every duty runs
-// under a watchdog: a Propose that has not returned long after its context ended is recorded as
+// Each scenario (the history of one service instance: duty objects and a schedule of calls on them;
+// emitted by TLC from spec/Scen_Proposer.tla) builds the real proposer service ONCE with scripted
+// fakes at every interface, makes one beaconblockproposer.Duty per duty object of the history and
+// calls Prepare / Propose for them as the schedule says - every call in a goroutine of its own, as
+// the controller does.  Calls overlap: every fake is a gate at which the calling goroutine waits
+// until the schedule lets it pass ("step"), so a call can be held inside the accounts lookup, the
+// signer, the graffiti provider, the auction, the proposal fetch or the submitter - or inside a
+// relay ("heldfull" until "release") - while other calls of the instance start, proceed or run to
+// completion.  A fake learns which call it is serving from the context the code passed to it.
+// One event per interface call the real code makes - with the arguments it really passed, decoded
+// with the library's own accessors - is recorded under the history's lock when the call passes the
+// gate, tagged with the duty object (h); a Switch line is written whenever the next event belongs
+// to another duty object than the one before.  Every wait of the schedule is under a watchdog: a
+// call that neither reaches an interface nor returns long after its context ended is recorded as
 // Hung (no action of the specification explains that line) and the instance is abandoned.
 // Scenarios run concurrently (the code sleeps 250 ms between relay retries); each scenario's events
-// are written contiguously, in the order of its calls.
+// are written contiguously, in the order in which they happened.
 
 import (
 	"context"
@@ -48,12 +56,28 @@ type c05Cfg struct {
 	UnblindAll bool `json:"unblindAll"`
 }
 
-// c05History is a scenario: one service instance and the duties it is handed, in order.
+// c05History is a scenario: one service instance, the duty objects it is handed (in the order in
+// which they are made) and the schedule of the calls.  Without a schedule every duty is prepared and
+// proposed before the next one is made.
 type c05History struct {
 	Sc     int           `json:"sc"`
 	Salt   uint32        `json:"salt"`
 	Cfg    c05Cfg        `json:"cfg"`
 	Duties []c05Scenario `json:"duties"`
+	Sched  []c05Step     `json:"sched"`
+}
+
+// c05Step is one step of the schedule, on duty object H (1-based):
+//
+//	prepare  make the duty object and call Prepare; the call goes up to its first interface call
+//	propose  call Propose (after Prepare has returned); the call goes up to its first interface call
+//	step     the call passes the interface call it is waiting at and goes on to the next one (or returns)
+//	run      the call goes on until it returns
+//	release  the relays that hold the call (script heldfull) answer
+//	drop     the duty is never proposed (the controller cancelled its job)
+type c05Step struct {
+	Op string `json:"op"`
+	H  int    `json:"h"`
 }
 
 // c05Scenario is the environment's side of one duty (Sc, Salt and Cfg are those of its history).
@@ -180,34 +204,61 @@ type c05Revealed struct {
 	q        verifsupport.Ev
 }
 
-// c05Hist is the recording side of a history: the fakes of the service instance write to the run of
-// the duty that is being handled.
+// c05Hist is the recording side of a history: one lock, one list of events for the whole instance.
 type c05Hist struct {
 	mu     sync.Mutex
-	cur    *c05Run
+	sc     int
+	events []verifsupport.Ev
+	lastH  int // duty object of the last event written
+	made   int // duty objects made so far
 	tokens int
+	runs   []*c05Run
+	orphan *c05Run
+	hung   bool
+	note   chan struct{} // something happened: a call reached a gate, was held in a relay, or returned
 }
 
-func (h *c05Hist) run() *c05Run {
+type c05CtxKey struct{}
+
+// runOf: the call an interface call belongs to is the one whose context the code passed.  If the
+// context does not tell and exactly one call is running on the instance it is that one; otherwise
+// the event goes to duty object 0, which the specification does not know.
+func (h *c05Hist) runOf(ctx context.Context) *c05Run {
+	if run, ok := ctx.Value(c05CtxKey{}).(*c05Run); ok && run != nil {
+		return run
+	}
 	h.mu.Lock()
 	defer h.mu.Unlock()
-	return h.cur
+	var only *c05Run
+	n := 0
+	for _, run := range h.runs {
+		if run.inCall {
+			only = run
+			n++
+		}
+	}
+	if n == 1 {
+		return only
+	}
+	return h.orphan
 }
 
-func (h *c05Hist) set(run *c05Run) {
-	h.mu.Lock()
-	h.cur = run
-	h.mu.Unlock()
+func (h *c05Hist) notify() {
+	select {
+	case h.note <- struct{}{}:
+	default:
+	}
 }
 
-// c05Run records one duty.
+// c05Run records one duty object: its Prepare and its Propose.
 type c05Run struct {
 	sc   *c05Scenario
 	hist *c05Hist
+	h    int // number of the duty object in the trace (order of making), 0: not made yet
+	duty *beaconblockproposer.Duty
 
-	mu        sync.Mutex
-	events    []verifsupport.Ev
-	closed    bool
+	// all fields below are guarded by hist.mu
+	closed    bool // Propose has returned (or the watchdog gave up): nothing is recorded any more
 	roots     map[phase0.Root]c05RootTag
 	obtained  []*c05Obtained
 	revealed  []*c05Revealed
@@ -218,26 +269,90 @@ type c05Run struct {
 	cancel    context.CancelFunc
 	cancelled bool
 	crash     string
+
+	// the schedule's side
+	inCall   bool          // a call (Prepare or Propose) is running
+	prepared bool          // Prepare has returned
+	proposed bool          // Propose was called
+	dropped  bool
+	atGate   int           // goroutines of the call waiting at an interface
+	held     int           // relay goroutines holding the call (script heldfull)
+	free     bool          // the gates are open for the rest of the call
+	freeCh   chan struct{} // closed when free is set
+	gateCh   chan struct{} // one receive = one pass
+	relCh    chan struct{} // closed by release
+	released bool
 }
 
+func c05NewRun(hist *c05Hist, sc *c05Scenario) *c05Run {
+	return &c05Run{
+		sc: sc, hist: hist, roots: map[phase0.Root]c05RootTag{}, attempts: map[int]int{}, finished: map[int]bool{},
+		delivers: map[int]bool{}, freeCh: make(chan struct{}), gateCh: make(chan struct{}), relCh: make(chan struct{}),
+	}
+}
+
+// emitLocked appends an event of this duty object to the history (hist.mu held), preceded by a Switch
+// line if the last event belonged to another duty object.
 func (run *c05Run) emitLocked(ev verifsupport.Ev) {
 	if run.closed {
 		return
 	}
-	ev["sc"] = run.sc.Sc
-	run.events = append(run.events, ev)
+	h := run.hist
+	// (making a duty object - NewDuty - is itself the switch to it)
+	if len(h.events) > 0 && h.lastH != run.h && ev["ev"] != "NewDuty" {
+		h.events = append(h.events, verifsupport.Ev{"sc": h.sc, "ev": "Switch", "h": run.h})
+	}
+	h.lastH = run.h
+	ev["sc"] = h.sc
+	ev["h"] = run.h
+	h.events = append(h.events, ev)
 }
 
 func (run *c05Run) emit(ev verifsupport.Ev) {
-	run.mu.Lock()
-	defer run.mu.Unlock()
+	run.hist.mu.Lock()
+	defer run.hist.mu.Unlock()
 	run.emitLocked(ev)
 }
 
-// nextToken: tokens are unique over the whole history of the instance.
+// pass is the gate at the entry of every gated fake: the calling goroutine waits here until the schedule
+// lets the call go on.  The event of the interface call is written after the gate.
+func (run *c05Run) pass() {
+	h := run.hist
+	h.mu.Lock()
+	if run.free || run.h == 0 {
+		h.mu.Unlock()
+		return
+	}
+	run.atGate++
+	freeCh := run.freeCh
+	h.mu.Unlock()
+	h.notify()
+	select {
+	case <-run.gateCh: // the schedule has taken this goroutine off the gate (atGate-- is done by the granter)
+	case <-freeCh:
+		h.mu.Lock()
+		run.atGate--
+		h.mu.Unlock()
+	}
+}
+
+// setFreeLocked opens the gates for the rest of the running call.
+func (run *c05Run) setFreeLocked() {
+	if !run.free {
+		run.free = true
+		close(run.freeCh)
+	}
+}
+
+func (run *c05Run) releaseLocked() {
+	if !run.released {
+		run.released = true
+		close(run.relCh)
+	}
+}
+
+// nextToken: tokens are unique over the whole history of the instance (hist.mu held).
 func (run *c05Run) nextToken() int {
-	run.hist.mu.Lock()
-	defer run.hist.mu.Unlock()
 	run.hist.tokens++
 	return int(run.sc.Salt%1000)*100 + run.hist.tokens
 }
@@ -269,12 +384,13 @@ func (a *c05Accounts) ValidatingAccountsForEpoch(_ context.Context, _ phase0.Epo
 }
 
 // The provider is faithful: it answers for the indices it is asked about.
-func (a *c05Accounts) ValidatingAccountsForEpochByIndex(_ context.Context, epoch phase0.Epoch, indices []phase0.ValidatorIndex) (map[phase0.ValidatorIndex]e2wtypes.Account, error) {
+func (a *c05Accounts) ValidatingAccountsForEpochByIndex(ctx context.Context, epoch phase0.Epoch, indices []phase0.ValidatorIndex) (map[phase0.ValidatorIndex]e2wtypes.Account, error) {
 	idxs := make([]uint64, 0, len(indices))
 	for _, i := range indices {
 		idxs = append(idxs, uint64(i))
 	}
-	run := a.h.run()
+	run := a.h.runOf(ctx)
+	run.pass()
 	out := run.sc.Accounts
 	run.emit(verifsupport.Ev{"ev": "Accounts", "epoch": uint64(epoch), "idxs": idxs, "out": out})
 	switch out {
@@ -300,10 +416,11 @@ func (a *c05Accounts) SyncCommitteeAccountsForEpochByIndex(_ context.Context, _ 
 
 type c05Signer struct{ h *c05Hist }
 
-func (s *c05Signer) SignRANDAOReveal(_ context.Context, account e2wtypes.Account, slot phase0.Slot) (phase0.BLSSignature, error) {
-	run := s.h.run()
-	run.mu.Lock()
-	defer run.mu.Unlock()
+func (s *c05Signer) SignRANDAOReveal(ctx context.Context, account e2wtypes.Account, slot phase0.Slot) (phase0.BLSSignature, error) {
+	run := s.h.runOf(ctx)
+	run.pass()
+	run.hist.mu.Lock()
+	defer run.hist.mu.Unlock()
 	out := run.sc.Randao
 	if out != "err" {
 		out = "ok"
@@ -316,12 +433,13 @@ func (s *c05Signer) SignRANDAOReveal(_ context.Context, account e2wtypes.Account
 	return c05MakeSig(c05SigRandao, token), nil
 }
 
-func (s *c05Signer) SignBeaconBlockProposal(_ context.Context, account e2wtypes.Account, slot phase0.Slot,
+func (s *c05Signer) SignBeaconBlockProposal(ctx context.Context, account e2wtypes.Account, slot phase0.Slot,
 	proposerIndex phase0.ValidatorIndex, parentRoot phase0.Root, stateRoot phase0.Root, bodyRoot phase0.Root,
 ) (phase0.BLSSignature, error) {
-	run := s.h.run()
-	run.mu.Lock()
-	defer run.mu.Unlock()
+	run := s.h.runOf(ctx)
+	run.pass()
+	run.hist.mu.Lock()
+	defer run.hist.mu.Unlock()
 	out := run.sc.Sign
 	if out != "err" {
 		out = "ok"
@@ -344,8 +462,9 @@ func (s *c05Signer) SignBlobSidecar(_ context.Context, _ e2wtypes.Account, _ pha
 
 type c05GraffitiProvider struct{ h *c05Hist }
 
-func (g *c05GraffitiProvider) Graffiti(_ context.Context, slot phase0.Slot, validatorIndex phase0.ValidatorIndex) ([]byte, error) {
-	run := g.h.run()
+func (g *c05GraffitiProvider) Graffiti(ctx context.Context, slot phase0.Slot, validatorIndex phase0.ValidatorIndex) ([]byte, error) {
+	run := g.h.runOf(ctx)
+	run.pass()
 	out := run.sc.Graffiti
 	if out != "err" && out != "template" {
 		out = "static"
@@ -368,11 +487,12 @@ func (c05Head) ExecutionChainHead(_ context.Context) (phase0.Hash32, uint64) {
 
 type c05Auctioneer struct{ h *c05Hist }
 
-func (a *c05Auctioneer) AuctionBlock(_ context.Context, slot phase0.Slot, _ phase0.Hash32, pubkey phase0.BLSPubKey) (*blockauctioneer.Results, error) {
-	run := a.h.run()
+func (a *c05Auctioneer) AuctionBlock(ctx context.Context, slot phase0.Slot, _ phase0.Hash32, pubkey phase0.BLSPubKey) (*blockauctioneer.Results, error) {
+	run := a.h.runOf(ctx)
+	run.pass()
 	sc := run.sc
-	// the relays of this auction belong to this duty: goroutines that outlive it keep writing to its
-	// (closed) record, not to a later duty's
+	// the relays of this auction belong to this call: goroutines that outlive it keep writing to its
+	// (closed) record, not to another duty's
 	relays := make([]*c05Relay, len(sc.Relays))
 	for i := range relays {
 		relays[i] = &c05Relay{run: run, n: i + 1, script: sc.Relays[i]}
@@ -403,8 +523,9 @@ type c05ProposalProvider struct{ h *c05Hist }
 // graffiti contains {{CLIENT}}.
 type c05ProposalProviderNC struct{ c05ProposalProvider }
 
-func (p *c05ProposalProviderNC) NodeClient(_ context.Context) (*api.Response[string], error) {
-	run := p.h.run()
+func (p *c05ProposalProviderNC) NodeClient(ctx context.Context) (*api.Response[string], error) {
+	run := p.h.runOf(ctx)
+	run.pass()
 	out := run.sc.Nodeclient
 	if out != "err" {
 		out = "ok"
@@ -416,10 +537,11 @@ func (p *c05ProposalProviderNC) NodeClient(_ context.Context) (*api.Response[str
 	return &api.Response[string]{Data: "c05client", Metadata: map[string]any{}}, nil
 }
 
-func (p *c05ProposalProvider) Proposal(_ context.Context, opts *api.ProposalOpts) (*api.Response[*api.VersionedProposal], error) {
-	run := p.h.run()
-	run.mu.Lock()
-	defer run.mu.Unlock()
+func (p *c05ProposalProvider) Proposal(ctx context.Context, opts *api.ProposalOpts) (*api.Response[*api.VersionedProposal], error) {
+	run := p.h.runOf(ctx)
+	run.pass()
+	run.hist.mu.Lock()
+	defer run.hist.mu.Unlock()
 	sc := run.sc
 	ev := verifsupport.Ev{
 		"ev": "Proposal", "slot": uint64(opts.Slot), "zerograffiti": opts.Graffiti == [32]byte{},
@@ -539,7 +661,7 @@ func (run *c05Run) describeSent(p *api.VersionedSignedBlindedProposal) (verifsup
 
 func (r *c05Relay) UnblindProposal(ctx context.Context, opts *builderapi.UnblindProposalOpts) (*builderapi.Response[*api.VersionedSignedProposal], error) {
 	run := r.run
-	run.mu.Lock()
+	run.hist.mu.Lock()
 	run.attempts[r.n]++
 	attempt := run.attempts[r.n]
 	var sent *api.VersionedSignedBlindedProposal
@@ -549,11 +671,15 @@ func (r *c05Relay) UnblindProposal(ctx context.Context, opts *builderapi.Unblind
 	q, seed, sig := run.describeSent(sent)
 
 	out := r.script
+	held := false
 	switch {
 	case r.script == "errfull" && attempt == 1:
 		out = "err"
 	case r.script == "errfull":
 		out = "full"
+	case r.script == "heldfull":
+		// reveals the block, but only when the schedule releases it (or the context ends)
+		out, held = "full", true
 	}
 	var resp *api.VersionedSignedProposal
 	if out == "full" || out == "nildata" || out == "emptydata" {
@@ -591,7 +717,19 @@ func (r *c05Relay) UnblindProposal(ctx context.Context, opts *builderapi.Unblind
 	}
 	run.emitLocked(verifsupport.Ev{"ev": "Unblind", "relay": r.n, "attempt": attempt, "q": q, "out": logged})
 	run.maybeCancelLocked()
-	run.mu.Unlock()
+	if held && !run.released {
+		run.held++
+		relCh := run.relCh
+		run.hist.mu.Unlock()
+		run.hist.notify()
+		select {
+		case <-relCh:
+		case <-ctx.Done():
+		}
+		run.hist.mu.Lock()
+		run.held--
+	}
+	run.hist.mu.Unlock()
 
 	switch out {
 	case "full":
@@ -776,10 +914,11 @@ func (run *c05Run) describeSubmitted(p *api.VersionedSignedProposal) verifsuppor
 	return d
 }
 
-func (s *c05Submitter) SubmitProposal(_ context.Context, proposal *api.VersionedSignedProposal) error {
-	run := s.h.run()
-	run.mu.Lock()
-	defer run.mu.Unlock()
+func (s *c05Submitter) SubmitProposal(ctx context.Context, proposal *api.VersionedSignedProposal) error {
+	run := s.h.runOf(ctx)
+	run.pass()
+	run.hist.mu.Lock()
+	defer run.hist.mu.Unlock()
 	out := run.sc.Submit
 	if out != "err" {
 		out = "ok"
@@ -801,23 +940,22 @@ func c05Candidates(sc *c05Scenario) []int {
 	return providers
 }
 
-// c05HistoryResult is what one history produced: the records of the duties that were handed to the
-// instance (a duty after a hung one is not), in order.
+// c05HistoryResult is what one history produced: the events of the instance, in order.
 type c05HistoryResult struct {
-	runs []*c05Run
+	hist *c05Hist
 	hung bool
 }
 
 func (res *c05HistoryResult) events() []verifsupport.Ev {
-	var evs []verifsupport.Ev
-	for _, run := range res.runs {
-		evs = append(evs, run.events...)
-	}
-	return evs
+	res.hist.mu.Lock()
+	defer res.hist.mu.Unlock()
+	return append([]verifsupport.Ev{}, res.hist.events...)
 }
 
 func (res *c05HistoryResult) crash() string {
-	for _, run := range res.runs {
+	res.hist.mu.Lock()
+	defer res.hist.mu.Unlock()
+	for _, run := range res.hist.runs {
 		if run.crash != "" {
 			return run.crash
 		}
@@ -825,12 +963,176 @@ func (res *c05HistoryResult) crash() string {
 	return ""
 }
 
-// c05RunHistory builds ONE real service and hands it the duties of the history one after the other.
-// fallback: the job context of a Propose is ended after this long at the latest; grace: a Propose that
-// has still not returned this long after the fallback is recorded as Hung and the instance abandoned
-// (its goroutine is left behind; nothing else waits for it).
+// c05DefaultSched: every duty is prepared and proposed before the next one is made.
+func c05DefaultSched(n int) []c05Step {
+	var sched []c05Step
+	for h := 1; h <= n; h++ {
+		sched = append(sched, c05Step{"prepare", h}, c05Step{"run", h}, c05Step{"propose", h}, c05Step{"run", h})
+	}
+	return sched
+}
+
+// c05Sched runs the schedule of one history on one service instance.
+type c05Sched struct {
+	ctx        context.Context
+	s          *Service
+	h          *c05History
+	hist       *c05Hist
+	ct         *verifsupport.ChainTime
+	fallback   time.Duration
+	patience   time.Duration
+	autoCancel bool
+}
+
+// settle waits until the call on run has reached an interface (or is held in a relay) or has returned.
+// If it does neither for `patience` - its context, if any, has ended long ago by then - it is recorded as
+// Hung and the instance is given up.
+func (x *c05Sched) settle(run *c05Run, untilReturn bool) {
+	deadline := time.NewTimer(x.patience)
+	defer deadline.Stop()
+	for {
+		x.hist.mu.Lock()
+		settled := !run.inCall || (!untilReturn && (run.atGate > 0 || (run.held > 0 && !run.released)))
+		x.hist.mu.Unlock()
+		if settled {
+			return
+		}
+		select {
+		case <-x.hist.note:
+		case <-time.After(20 * time.Millisecond):
+		case <-deadline.C:
+			x.hist.mu.Lock()
+			if run.inCall && !run.closed {
+				run.emitLocked(verifsupport.Ev{"ev": "Hung", "after_ms": x.patience.Milliseconds()})
+				run.closed = true
+				x.hist.hung = true
+			}
+			x.hist.mu.Unlock()
+			return
+		}
+	}
+}
+
+func (x *c05Sched) guarded(run *c05Run, what string, fn func()) {
+	defer func() {
+		if r := recover(); r != nil {
+			x.hist.mu.Lock()
+			run.crash = fmt.Sprintf("%s: %v", what, r)
+			x.hist.mu.Unlock()
+		}
+	}()
+	fn()
+}
+
+// startCall: a new call on the duty object starts with closed gates.
+func (x *c05Sched) startCallLocked(run *c05Run) {
+	run.inCall = true
+	run.free = false
+	run.freeCh = make(chan struct{})
+}
+
+// prepare makes the duty object and calls Prepare for it, in a goroutine of its own as the controller does.
+func (x *c05Sched) prepare(run *c05Run) {
+	sc := run.sc
+	x.hist.mu.Lock()
+	x.hist.made++
+	run.h = x.hist.made
+	run.duty = beaconblockproposer.NewDuty(phase0.Slot(sc.Slot), phase0.ValidatorIndex(sc.V))
+	if run.h == 1 {
+		run.emitLocked(verifsupport.Ev{"ev": "Reset", "slot": sc.Slot, "v": sc.V, "cfg": verifsupport.Ev{
+			"graffiti": x.h.Cfg.Graffiti, "nodeclient": x.h.Cfg.Nodeclient, "auctioneer": x.h.Cfg.Auctioneer,
+			"unblindAll": x.h.Cfg.UnblindAll,
+		}})
+	} else {
+		run.emitLocked(verifsupport.Ev{"ev": "NewDuty", "slot": sc.Slot, "v": sc.V})
+	}
+	x.startCallLocked(run)
+	x.hist.mu.Unlock()
+	ctx := context.WithValue(x.ctx, c05CtxKey{}, run)
+	go func() {
+		var err error
+		x.guarded(run, "Prepare", func() { err = x.s.Prepare(ctx, run.duty) })
+		out := "ok"
+		if err != nil {
+			out = "err"
+		}
+		x.hist.mu.Lock()
+		run.emitLocked(verifsupport.Ev{"ev": "PrepRet", "out": out})
+		run.inCall, run.prepared = false, true
+		x.hist.mu.Unlock()
+		x.hist.notify()
+	}()
+}
+
+// propose calls Propose for the duty object, as the scheduler job of its slot would.
+func (x *c05Sched) propose(run *c05Run) {
+	sc := run.sc
+	if x.ct.CurrentSlot() < phase0.Slot(sc.Slot) {
+		x.ct.SetSlot(sc.Slot)
+	}
+	// The controller only schedules Propose after a successful Prepare; the driver calls it
+	// regardless, so that validateDuty is exercised too.
+	jobCtx, cancel := context.WithCancel(context.WithValue(x.ctx, c05CtxKey{}, run))
+	x.hist.mu.Lock()
+	run.proposed = true
+	run.cancel = cancel
+	if x.autoCancel {
+		run.expected = c05Candidates(sc)
+	}
+	run.emitLocked(verifsupport.Ev{"ev": "ProposeCall"})
+	x.startCallLocked(run)
+	x.hist.mu.Unlock()
+	timer := time.AfterFunc(x.fallback, func() {
+		x.hist.mu.Lock()
+		defer x.hist.mu.Unlock()
+		if run.cancelled || run.closed {
+			return
+		}
+		run.cancelled = true
+		run.emitLocked(verifsupport.Ev{"ev": "Cancel", "why": "driver fallback deadline"})
+		cancel()
+	})
+	go func() {
+		x.guarded(run, "Propose", func() { x.s.Propose(jobCtx, run.duty) })
+		timer.Stop()
+		x.hist.mu.Lock()
+		ret := verifsupport.Ev{"ev": "Ret"}
+		if run.crash != "" {
+			ret["crash"] = run.crash
+		}
+		run.emitLocked(ret)
+		run.closed = true
+		run.inCall = false
+		x.hist.mu.Unlock()
+		cancel()
+		x.hist.notify()
+	}()
+}
+
+// step lets the call pass the interface call it is waiting at.
+func (x *c05Sched) step(run *c05Run) {
+	x.hist.mu.Lock()
+	waiting := run.inCall && run.atGate > 0
+	x.hist.mu.Unlock()
+	if !waiting {
+		return // the code is not where the schedule expects it (it made fewer calls): nothing to let pass
+	}
+	select {
+	case run.gateCh <- struct{}{}:
+		x.hist.mu.Lock()
+		run.atGate--
+		x.hist.mu.Unlock()
+	case <-time.After(2 * time.Second):
+	}
+}
+
+// c05RunHistory builds ONE real service and runs the schedule of the history on it.
+// fallback: the job context of a Propose is ended after this long at the latest; grace: a call that has
+// neither reached an interface nor returned this long after the fallback is recorded as Hung and the
+// instance abandoned (its goroutine is left behind; nothing else waits for it).
 func c05RunHistory(t *testing.T, h *c05History, fallback time.Duration, grace time.Duration, autoCancel bool) *c05HistoryResult {
-	hist := &c05Hist{}
+	hist := &c05Hist{sc: h.Sc, note: make(chan struct{}, 1)}
+	hist.orphan = c05NewRun(hist, &c05Scenario{Sc: h.Sc, Salt: h.Salt, Cfg: h.Cfg, Accounts: "ok", Randao: "ok", Sign: "ok", Submit: "ok"})
 	ctx := context.Background()
 	ct := verifsupport.NewChainTime(32, 12*time.Second)
 	if len(h.Duties) > 0 {
@@ -868,105 +1170,104 @@ func c05RunHistory(t *testing.T, h *c05History, fallback time.Duration, grace ti
 		t.Fatalf("beaconblockproposer New: %v", err)
 	}
 
-	res := &c05HistoryResult{}
 	for i := range h.Duties {
 		sc := &h.Duties[i]
 		sc.Sc, sc.Salt, sc.Cfg = h.Sc, h.Salt, h.Cfg
-		run := &c05Run{
-			sc: sc, hist: hist, roots: map[phase0.Root]c05RootTag{}, attempts: map[int]int{}, finished: map[int]bool{},
-			delivers: map[int]bool{},
+		hist.runs = append(hist.runs, c05NewRun(hist, sc))
+	}
+	sched := h.Sched
+	if len(sched) == 0 {
+		sched = c05DefaultSched(len(h.Duties))
+	}
+	x := &c05Sched{ctx: ctx, s: s, h: h, hist: hist, ct: ct, fallback: fallback, patience: fallback + grace, autoCancel: autoCancel}
+	for _, st := range sched {
+		if st.H < 1 || st.H > len(hist.runs) {
+			continue
 		}
-		hist.set(run)
-		res.runs = append(res.runs, run)
-		ct.SetSlot(sc.Slot)
-		if i == 0 {
-			run.emit(verifsupport.Ev{"ev": "Reset", "slot": sc.Slot, "v": sc.V, "cfg": verifsupport.Ev{
-				"graffiti": h.Cfg.Graffiti, "nodeclient": h.Cfg.Nodeclient, "auctioneer": h.Cfg.Auctioneer,
-				"unblindAll": h.Cfg.UnblindAll,
-			}})
-		} else {
-			run.emit(verifsupport.Ev{"ev": "NextDuty", "slot": sc.Slot, "v": sc.V, "duty": i + 1})
-		}
-
-		done := make(chan struct{})
-		go func() {
-			defer close(done)
-			c05RunDuty(ctx, s, run, fallback, autoCancel)
-		}()
-		watchdog := time.NewTimer(fallback + grace)
-		select {
-		case <-done:
-			watchdog.Stop()
-		case <-watchdog.C:
-			// Propose (or Prepare) has not returned although its context ended `grace` ago.
-			run.mu.Lock()
-			if !run.closed {
-				run.emitLocked(verifsupport.Ev{"ev": "Hung", "duty": i + 1, "after_ms": (fallback + grace).Milliseconds()})
-				run.closed = true
-				res.hung = true
+		run := hist.runs[st.H-1]
+		hist.mu.Lock()
+		inCall, made, prepared, over := run.inCall, run.h != 0, run.prepared, run.proposed || run.dropped
+		hist.mu.Unlock()
+		switch st.Op {
+		case "prepare":
+			if made {
+				continue
 			}
-			cancel := run.cancel
-			run.mu.Unlock()
-			if cancel != nil {
-				cancel()
+			x.prepare(run)
+			x.settle(run, false)
+		case "propose":
+			if !made || inCall || !prepared || over {
+				continue
 			}
+			x.propose(run)
+			x.settle(run, false)
+		case "step":
+			if !inCall {
+				continue
+			}
+			x.step(run)
+			x.settle(run, false)
+		case "run":
+			if !inCall {
+				continue
+			}
+			hist.mu.Lock()
+			run.setFreeLocked()
+			run.releaseLocked()
+			hist.mu.Unlock()
+			x.settle(run, true)
+		case "release":
+			if !inCall {
+				continue
+			}
+			hist.mu.Lock()
+			run.releaseLocked()
+			hist.mu.Unlock()
+			// the relay answers; the call goes on to the submitter (or returns)
+			x.settle(run, false)
+		case "drop":
+			if !made || inCall || !prepared || over {
+				continue
+			}
+			hist.mu.Lock()
+			run.dropped = true
+			run.emitLocked(verifsupport.Ev{"ev": "Drop"})
+			hist.mu.Unlock()
 		}
-		if res.hung {
-			// the instance is wedged; its later duties cannot be handed over
+		hist.mu.Lock()
+		hung := hist.hung
+		hist.mu.Unlock()
+		if hung {
 			break
 		}
 	}
-	return res
-}
-
-// c05RunDuty is Prepare and Propose for one duty, as the controller would call them.
-func c05RunDuty(ctx context.Context, s *Service, run *c05Run, fallback time.Duration, autoCancel bool) {
-	sc := run.sc
-	duty := beaconblockproposer.NewDuty(phase0.Slot(sc.Slot), phase0.ValidatorIndex(sc.V))
-	guarded := func(what string, fn func()) {
-		defer func() {
-			if r := recover(); r != nil {
-				run.mu.Lock()
-				run.crash = fmt.Sprintf("%s: %v", what, r)
-				run.mu.Unlock()
-			}
-		}()
-		fn()
+	// the schedule is over: whatever is still running goes on to its end
+	for _, run := range hist.runs {
+		hist.mu.Lock()
+		run.setFreeLocked()
+		run.releaseLocked()
+		hist.mu.Unlock()
 	}
-	guarded("Prepare", func() { _ = s.Prepare(ctx, duty) })
-
-	// The controller only schedules Propose after a successful Prepare; the driver calls it
-	// regardless, so that validateDuty is exercised too.
-	jobCtx, cancel := context.WithCancel(ctx)
-	run.mu.Lock()
-	run.cancel = cancel
-	if autoCancel {
-		run.expected = c05Candidates(sc)
-	}
-	run.emitLocked(verifsupport.Ev{"ev": "ProposeCall"})
-	run.mu.Unlock()
-	timer := time.AfterFunc(fallback, func() {
-		run.mu.Lock()
-		defer run.mu.Unlock()
-		if run.cancelled || run.closed {
-			return
+	for _, run := range hist.runs {
+		hist.mu.Lock()
+		hung := hist.hung
+		hist.mu.Unlock()
+		if hung {
+			break
 		}
-		run.cancelled = true
-		run.emitLocked(verifsupport.Ev{"ev": "Cancel", "why": "driver fallback deadline"})
-		cancel()
-	})
-	guarded("Propose", func() { s.Propose(jobCtx, duty) })
-	timer.Stop()
-
-	run.mu.Lock()
-	ret := verifsupport.Ev{"ev": "Ret"}
-	if run.crash != "" {
-		ret["crash"] = run.crash
+		x.settle(run, true)
 	}
-	run.emitLocked(ret)
-	run.closed = true
-	run.mu.Unlock()
-	cancel()
+	hist.mu.Lock()
+	hung := hist.hung
+	for _, run := range hist.runs {
+		// nothing is recorded any more; the instance is given up, goroutines that are stuck are left behind
+		run.closed = true
+		if run.cancel != nil {
+			defer run.cancel()
+		}
+	}
+	hist.mu.Unlock()
+	return &c05HistoryResult{hist: hist, hung: hung}
 }
 
 // c05BlockedInUnblind counts goroutines that still sit in unblindProposal's relay closure.
